@@ -68,6 +68,24 @@ def release (r : Ring) : Ring :=
   | [] => r
   | (off, len) :: rest => { r with tail := off + len, out := rest }
 
+/-- `*dest` as `(offset, capacity)`; the C writes it (`*dest = aws_byte_buf_from_empty_array(ptr, size)`) on the
+granting paths only, immediately before `return AWS_OP_SUCCESS` -/
+abbrev Dest := Nat × Nat
+
+def writeDest (d : Dest) : Res → Dest
+  | .ok off len => (off, len)
+  | _ => d
+
+/-- `aws_ring_buffer_acquire` with its out-parameter: new ring, result, `*dest` afterwards -/
+def acquireD (r : Ring) (t : Nat) (req : Nat) (d : Dest) : Ring × Res × Dest :=
+  let x := acquireWith r t req
+  (x.1, x.2, writeDest d x.2)
+
+/-- `aws_ring_buffer_acquire_up_to` with its out-parameter -/
+def acquireUpToD (r : Ring) (t : Nat) (minimum req : Nat) (d : Dest) : Ring × Res × Dest :=
+  let x := acquireUpToWith r t minimum req
+  (x.1, x.2, writeDest d x.2)
+
 def acquire (r : Ring) (req : Nat) : Ring × Res := acquireWith r r.tail req
 def acquireUpTo (r : Ring) (minimum req : Nat) : Ring × Res := acquireUpToWith r r.tail minimum req
 
